@@ -230,7 +230,7 @@ def run(tier, seed):
                 "(branch, key) all of whose wrong answers were rejected, a confirmed honest branch, a witness read")
     rep.assumptions = ["Keccak collisions assumed away", "binary universe B8 of DESIGN §4", "oracle mcx/ref/bintrie.py"]
     plans = [dict(universe="B8", values=("a", "bb")), dict(universe="BC", values=("a",)), dict(universe="BLK", values=("a", "bb")),
-             dict(universe="BXL", values=("a",))]
+             dict(universe="BXL", values=("a",)), dict(universe="B6", values=("v02", "br65")), dict(universe="BRC", values=("a",))]
     if tier == "thorough":
         plans = plans + [dict(universe="B10", values=("a", "bb")), dict(universe="B4L", values=("a", "bb", "c33"))]
     for kw in plans:
